@@ -124,6 +124,22 @@ ChiAgree(R) ==
 ChiCompared(R) == Cardinality({ id \in UNION { ChiIds(R[a]) : a \in 1..Len(R) } :
                                   Cardinality({ a \in 1..Len(R) : id \in ChiIds(R[a]) }) >= 2 })
 
+\* ChiCoverage: a nucleotide with a standard name that holds the four atoms of its glycosidic torsion has a
+\* chi in every reading - the residue-level model computes it for every such residue, the table-level model
+\* for those it lists in a connected segment
+PurineNames == {"A", "G", "DA", "DG"}
+PyrimidineNames == {"C", "U", "T", "DC", "DT"}
+AtomNamesOf(L, id) == { L[i].an : i \in { j \in Idx(L) : ResId(L[j]) = id } }
+NameOfRes(L, id) == L[FirstLine(L, id)].rn
+NeedsChi(L, id) ==
+  LET rn == NameOfRes(L, id)  an == AtomNamesOf(L, id) IN
+  \/ rn \in PurineNames /\ {"O4'", "C1'", "N9", "C4"} \subseteq an
+  \/ rn \in PyrimidineNames /\ {"O4'", "C1'", "N1", "C2"} \subseteq an
+InSegment(X, id) == \E p \in SeqSet(X.conn) : p[1] = id \/ p[2] = id
+ChiCoverage(L, R) ==
+  \A a \in 1..Len(R) : \A id \in ResIds(L) :
+     (NeedsChi(L, id) /\ (R[a].gen = 1 \/ InSegment(R[a], id))) => id \in ChiIds(R[a])
+
 AgreeFailing(c, L, checkNull) ==
   LET R == c.reads
       bad == { a \in 1..Len(R) : ReadFailing(L, R[a], checkNull) # "ok" } IN
@@ -132,6 +148,7 @@ AgreeFailing(c, L, checkNull) ==
   ELSE IF \E ab \in OnSpherePairs(L) : \E x, y \in 1..Len(R) :
              (ab \in SeqSet(R[x].conn)) # (ab \in SeqSet(R[y].conn)) THEN <<"SameConnectivity", "boundary">>
   ELSE IF ~ChiAgree(R) THEN <<"SameChiMagnitude", "chi">>
+  ELSE IF ~ChiCoverage(L, R) THEN <<"SameChiMagnitude", "coverage">>
   ELSE <<"ok", "">>
 
 \* the same defects of the residue-level reader, seen through C15
